@@ -17,6 +17,19 @@ import (
 var c13TagSets = []map[string]string{nil, {}, {"a": "b"}, {"a": "b=c"}, {"a=b": "c"}, {"a": "b", "c": "d"}, {"x=y": ""}, {"x": "y="},
 	{"t01": "v", "t02": "v", "t03": "v", "t04": "v", "t05": "v", "t06": "v", "t07": "v", "t08": "v", "t09": "v", "t10": "v", "t11": "v", "t12": "v"}}
 
+// c13ExtraCommon: further common tags of the configuration under test (more than a pooled tag slice of the reporter holds).
+var c13ExtraCommon map[string]string
+
+func c13CommonTags(n int) map[string]string {
+	m := map[string]string{"ck": "cv"}
+	c13ExtraCommon = map[string]string{}
+	for i := 0; i < n; i++ {
+		k, v := fmt.Sprintf("common%02d", i), fmt.Sprintf("cv%02d", i)
+		m[k], c13ExtraCommon[k] = v, v
+	}
+	return m
+}
+
 func wantKey(name string, mtype int, count int64, gauge float64, timer int64, tags map[string]string, extra ...string) string {
 	ts := make([]string, 0, len(tags)+len(extra))
 	for k, v := range tags {
@@ -41,8 +54,12 @@ func m3Collect(kind string, dgs [][]byte, tMin, tMax int64) (got []string, claus
 		for _, t := range msg.Batch.CommonTags {
 			common[t.Name] = t.Value
 		}
-		if common["service"] != "svc" || common["env"] != "test" || common["ck"] != "cv" {
-			return nil, "common-tags-missing", fmt.Sprintf("datagram %d carries common tags %v", i, common)
+		wantCommon := map[string]string{"service": "svc", "env": "test", "ck": "cv"}
+		for k, v := range c13ExtraCommon {
+			wantCommon[k] = v
+		}
+		if !tagsEqual(common, wantCommon) || len(msg.Batch.CommonTags) != len(wantCommon) {
+			return nil, "common-tags-missing", fmt.Sprintf("datagram %d carries common tags %v, configured %v", i, msg.Batch.CommonTags, wantCommon)
 		}
 		for _, m := range msg.Batch.Metrics {
 			if strings.HasPrefix(m.Name, "tally.internal") {
@@ -131,7 +148,7 @@ var c13Ints = []int64{1, 0, math.MinInt64, math.MaxInt64}
 var c13Floats = []float64{1.5, math.Copysign(0, -1), nan1, math.Inf(-1)}
 
 // c13Run executes one history; it is used by the seq job (default schedule) and, with threads, by the sched scenario.
-func c13Run(kind string, ndest, queue int, alphabet []string, hist []int) (string, string, int) {
+func c13Run(kind string, ndest, queue, ncommon int, alphabet []string, hist []int) (string, string, int) {
 	steps := 0
 	var sinks []*fastSink
 	var addrs []string
@@ -151,7 +168,7 @@ func c13Run(kind string, ndest, queue int, alphabet []string, hist []int) (strin
 	var pre [][][]byte
 	cl, det, leaked := controlledCaseLeaks(1, func() {
 		tMin = rt.NowNanos()
-		r, err := m3.NewReporter(m3.Options{HostPorts: addrs, Service: "svc", Env: "test", CommonTags: map[string]string{"ck": "cv"}, Protocol: m3Proto(kind), MaxQueueSize: queue})
+		r, err := m3.NewReporter(m3.Options{HostPorts: addrs, Service: "svc", Env: "test", CommonTags: c13CommonTags(ncommon), Protocol: m3Proto(kind), MaxQueueSize: queue})
 		if err != nil {
 			rcl, rdet = "new-reporter", err.Error()
 			return
@@ -269,20 +286,25 @@ func c13Jobs(tier string) []*SeqJob {
 	depth := tierInt(tier, 3, 4)
 	var jobs []*SeqJob
 	type cfg struct {
-		kind  string
-		ndest int
-		queue int
+		kind    string
+		ndest   int
+		queue   int
+		ncommon int // common tags besides service, env and ck
 	}
-	cfgs := []cfg{{"compact", 1, 1}, {"binary", 2, 0}}
+	cfgs := []cfg{{"compact", 1, 1, 0}, {"binary", 2, 0, 11}}
 	if tier == "thorough" {
-		cfgs = append(cfgs, cfg{"binary", 1, 2}, cfg{"compact", 2, 2})
+		cfgs = append(cfgs, cfg{"binary", 1, 2, 0}, cfg{"compact", 2, 2, 11})
 	}
 	for _, c := range cfgs {
 		c := c
-		j := &SeqJob{Property: "C13", Name: fmt.Sprintf("allocate-report-flush-histories-%s-%ddest-queue%d", c.kind, c.ndest, c.queue), Shards: tierInt(tier, 8, 16), Controlled: true}
+		name := fmt.Sprintf("allocate-report-flush-histories-%s-%ddest-queue%d", c.kind, c.ndest, c.queue)
+		if c.ncommon > 0 {
+			name += fmt.Sprintf("-%dcommon", c.ncommon+3)
+		}
+		j := &SeqJob{Property: "C13", Name: name, Shards: tierInt(tier, 8, 16), Controlled: true}
 		exec := func(hist []int) (cl, det, key string, steps int) {
 			cl, det = guard(func() (string, string) {
-				a, b, s := c13Run(c.kind, c.ndest, c.queue, alphabet, hist)
+				a, b, s := c13Run(c.kind, c.ndest, c.queue, c.ncommon, alphabet, hist)
 				steps = s
 				return a, b
 			})
